@@ -54,6 +54,19 @@ check("C04",
       HOM + " Spectrum clause is evaluated for d<=5.", "TLA+ characteristic-polynomial oracle in trace validation (TLC)",
       "DESIGN.md §4 C04")
 
+check("C05",
+      "Similarity.tla is the non-Hermitian problem with an unoptimised reference solver (explicit H_0 products, including "
+      "the [H_0, U_S] term); MC_Similarity checks it against the defining equations on every configuration within bounds "
+      "(all asymmetric masks, complex energies, non-Hermitian terms). Runs of block_diagonalize(hermitian=False) -- "
+      "sympy exact, numpy/sparse dyadic, asymmetric masks, complex H_0 eigenvalues, explicit (R,L) biorthogonal bases "
+      "from unimodular matrices -- are validated by TLC (Trace_Similarity) clause by clause: U_inv U = U U_inv = 1, "
+      "U_inv H U = H_tilde on kept / 0 on eliminated elements, gauge, equality with the reference, and on Hermitian "
+      "input equality with the Hermitian mode's outputs logged in the same session.",
+      HOM + " KNOWN FINDING (known_findings.json): whenever a kept pair has different unperturbed energies the library's "
+      "H_tilde/U are wrong from second order; in that class only the inverse clauses are enforced.",
+      "TLA+ reference similarity solver as trace-validation oracle (TLC) + exhaustive TLC model check of the reference",
+      "DESIGN.md §4 C05")
+
 ENG = ("Trusted: TLC/SANY 1.8.0, the Json community module, the harness-side tracer (wraps the public BlockSeries.eval "
        "attribute and pop; cache hits are not observed), exactness of IEEE arithmetic on dyadic instances, reduction mod "
        "p=46199 for the value comparison. Bounds: 2-3 blocks, d<=5, total order<=3, schedules of <=6 requests (+ full "
